@@ -60,6 +60,7 @@ REQUIRED_THEOREMS = [
     # polynomial exactness with explicit remainders, Cartesian any number of axes / 3-d, cylindrical (Props/C01Gap.lean)
     "d2_line_poly", "d1_central_line_poly", "d1_forward_line_poly", "d1_backward_line_poly",
     "cartLaplace_poly_nd", "cartGradient_poly_nd", "cartGradient_onesided_poly_nd", "cartDivergence_poly_nd",
+    "cartDivergence_forward_poly_nd", "cartDivergence_backward_poly_nd",
     "cartVectorGradient_poly_nd", "cartVectorLaplace_poly_nd", "cartTensorDivergence_poly_nd",
     "cartLaplace_poly_3d", "cartGradient_poly_3d", "cartDivergence_poly_3d", "cartVectorGradient_poly_3d",
     "cartVectorLaplace_poly_3d", "cartTensorDivergence_poly_3d", "cartLaplace_poly_3d_mixed",
@@ -77,7 +78,8 @@ REQUIRED_THEOREMS = [
     "d1_central_fun_taylor_local", "even_iteratedDeriv3_bound", "even_d1_error_div_radius", "even_d1_error_bound",
     "even_d2_sub_d1_div_bound", "polarLaplace_even_smooth_uniform", "sphLaplace_plain_even_smooth_uniform",
     "sphLaplace_conservative_even_smooth_uniform", "sphTensorDoubleDivergence_plain_even_smooth_uniform",
-    "cylLaplace_even_smooth_uniform",
+    "cylLaplace_even_smooth_uniform", "d2_fun_bounded_local", "odd_d1_sub_div_bound",
+    "sphDivergence_conservative_odd_smooth_uniform", "cylVectorLaplace_z_even_smooth_uniform",
 ]
 EXTRA_PROP_FILES = ["C01Taylor", "C01Smooth", "C01SmoothB", "C01Axis", "C01Nine", "C01Gap", "C01GapSmooth"]
 RULE = ("matrix leg: seed-derived grids of the four stencil families (Cartesian 1-3 axes incl. UnitGrid, polar, "
@@ -87,7 +89,7 @@ RULE = ("matrix leg: seed-derived grids of the four stencil families (Cartesian 
         "fields on three refinements per operator.")
 ASSUMPTIONS = [
     "matrix entries compared at 1e-11 relative to the largest entry; zero pattern exactly",
-    "theorems cover polynomial fields (all coefficients, sizes, positions); general smooth fields are validated by the refinement study",
+    "theorems cover polynomial fields (all coefficients, sizes, positions) and all C2/C3/C4 real fields (Props/C01Smooth*.lean; uniformly over all cells for fields regular at the axis: Props/C01GapSmooth.lean); the refinement study is the model-free monitor of the same clause",
 ]
 TRUSTED_EXTRA = ["numba code generation / scipy.ndimage are external: observed through the matrix comparison only"]
 
